@@ -41,7 +41,17 @@ def facts(ctx):
     fb = common.fn_body(cl, r"fn\s+assertion_hashed_uri_from_label\s*\(", "Claim::assertion_hashed_uri_from_label")
     if ".contains(assertion_label)" in fb or not re.search(r"\.url\(\)\.rsplit\('/'\)\.next\(\)\s*==\s*Some\(assertion_label\)", fb) or fb.count(".find(is_match)") != 3:
         raise TieBroken("srcfacts: assertion_hashed_uri_from_label no longer matches the label exactly against the last URI segment (fix 9afceaf9c)")
-    ctx.facts = {"slack": slack, "lookup_exact_last_segment": True}
+    bt = common.strip_tests(common.src("sdk/src/builder.rs"))
+    tc = common.fn_body(bt, r"fn\s+to_claim\s*\(", "Builder::to_claim")
+    # every arm of the generated label space passes the definition's created flag (CreativeWork since fix 937eabecd)
+    for arm, pat in (("CreativeWork", r"CreativeWork::LABEL\s*=>\s*\{[^}]*add_assertion\(&mut claim, &cw, manifest_assertion\.created\(\)\)"),
+                     ("Exif", r"Exif::LABEL\s*=>\s*\{[^}]*add_assertion\(&mut claim, &exif, manifest_assertion\.created\(\)\)"),
+                     ("Metadata", r"Metadata::LABEL\s*=>\s*\{[^}]*add_assertion\(&mut claim, &metadata, manifest_assertion\.created\(\)\)")):
+        if not re.search(pat, tc):
+            raise TieBroken("srcfacts: the %s arm of Builder::to_claim no longer passes manifest_assertion.created()" % arm)
+    if tc.count("manifest_assertion.created(),") < 2:
+        raise TieBroken("srcfacts: the user assertion arms of Builder::to_claim no longer pass manifest_assertion.created()")
+    ctx.facts = {"slack": slack, "lookup_exact_last_segment": True, "created_passed_by_arms": 5}
     ni = common.fn_body(cl, r"fn\s+next_instance\s*\(", "Claim::next_instance")
     ctx.facts["next_instance_contains"] = ".contains(&label)" in ni
     v = ("(* generated from sdk/src/store.rs, sdk/src/claim.rs, sdk/src/assertions/data_hash.rs on every run — do not edit *)\n"
